@@ -307,7 +307,7 @@ func verifContactAction(name string, uuid flows.ActionUUID) flows.Action {
 // replaying the sprint's events in order over the contact as it was before
 // the sprint reproduces the session's contact (query based membership and
 // last-seen included).
-// cover: first-sprint, second-sprint, blocked-contact, msg-trigger, manual-trigger
+// cover: first-sprint, second-sprint, blocked-contact, msg-trigger, manual-trigger, seen-later-than-the-message
 func VerifC03_SprintActions() { verifSprintActions(false) }
 
 // verifSprintActions: the scenario of VerifC03_SprintActions; with membership
@@ -347,6 +347,16 @@ func verifSprintActions(membership bool) {
 			contact.Groups().Add(groups[1])
 		}
 	}
+	// the contact may have been seen before: long ago, or (clocks of two hosts,
+	// messages handled out of order, a refreshed contact) later than the
+	// message that is about to be received
+	switch zzverif.Choice("seen-before", 3) {
+	case 1:
+		contact.SetLastSeenOn(time.Date(2000, 1, 1, 0, 0, 0, 0, time.UTC))
+	case 2:
+		contact.SetLastSeenOn(time.Date(2100, 1, 1, 0, 0, 0, 0, time.UTC))
+		zzverif.Cover("seen-later-than-the-message")
+	}
 	view := verifCVOf(contact, sa)
 	trig := verifTrigger(sa, contact)
 	if trig.Type() == "msg" {
@@ -356,11 +366,7 @@ func verifSprintActions(membership bool) {
 	}
 	sess, sp, err := verifEngine(10, 10).NewSession(sa, trig)
 	zzverif.Assert(err == nil, "NewSession failed")
-	seen := ""
-	if sess.Contact().LastSeenOn() != nil {
-		seen = sess.Contact().LastSeenOn().String() // (when the triggering message was received: see VerifC06_Engine for that clause)
-	}
-	view.apply(sp.Events(), seen)
+	view.apply(sp.Events(), trig.TriggeredOn().String()) // last-seen from the received message
 	if membership {
 		verifCheckSprintMembership(env, sess.Contact(), groups)
 	} else {
